@@ -298,6 +298,10 @@ def gen_kiki_tables(repo):
                 '; '.join('true' if u else 'false' for _, u in fields)))
     L.append(';\n'.join(rows))
     L.append('].')
+    kiki_text = open(os.path.join(repo, 'kiki/src/parser.kiki'), encoding='utf-8').read()
+    _need(all(ord(c) < 128 for c in kiki_text), 'parser.kiki: non-ASCII text')
+    L.append('(* the text of parser.kiki itself *)')
+    L.append('Definition parser_kiki_src : string := %s.' % coq_string(kiki_text))
     return '\n'.join(L) + '\n'
 
 
